@@ -174,7 +174,8 @@ pub fn gen_c02(rng: &mut Rng, n: usize, out: &mut Vec<String>) {
             // valid corner programs (leading white space, comments between keyword and name, nested calls), every
             // handler at every identifier, at 0:0 and behind every `(` and `,`
             let mut tmp = vec![];
-            crate::ops_feat::gen_corner_docs(rng, i / 50, &mut tmp);
+            let w = i / 50 + 3 * rng.below(4);
+            crate::ops_feat::gen_corner_docs(rng, w, &mut tmp);
             out.extend(tmp.into_iter().filter(|l| !l.starts_with("SPEC") && !l.starts_with("JUDGE")));
         }
         if i % 8 == 5 {
